@@ -18,6 +18,10 @@ structure OSt where
   pending : Option Nat := none        -- last group queued by `activate_agenda_group` since the last execute
   facts : List (Nat × Int)
   tags : List String := []
+  /-- how the previous execute of this history ended (0 none yet, 1 before the bound, 2 at the bound, 3 `Err`) and
+  whether the knowledge base was edited since — only used for the coverage tags -/
+  prevExec : Nat := 0
+  kbEdited : Bool := false
 
 def findRule (rules : List Rule) (n : Nat) : Option Rule := rules.find? (fun r => r.name == n)
 
@@ -119,6 +123,12 @@ def checkExec (maxc t : Nat) (o : OSt) (ob : OpObs) : Except String OSt := do
   let vec := sortSal o.rules
   let fired := hevs.filterMap (fun e => match e with | .fire r => some r | _ => none)
   let mut o := o
+  o := addTag o (o.rules.length ≥ 33) "kb_ge_33"
+  o := addTag o (o.rules.length ≥ 65) "kb_ge_65"
+  o := addTag o (o.rules.length ≥ 129) "kb_ge_129"
+  o := addTag o (o.prevExec != 0 && o.kbEdited) "exec_after_kb_edit"
+  o := addTag o (o.prevExec == 2) "exec_after_bound"
+  o := addTag o (o.prevExec == 3) "exec_after_err"
   match ob.res with
   | .ok c e f =>
     if !C03.countersOk maxc c e f names.length o.rules.length then .error "counters"
@@ -132,6 +142,9 @@ def checkExec (maxc t : Nat) (o : OSt) (ob : OpObs) : Except String OSt := do
       | some cl => .error cl
       | none => pure ()
     if c < maxc && !C03.fixpointOk R' ob.active t o.rules ob.facts then .error "not_fixpoint"
+    -- a return before the bound comes after a pass that fired nothing (`C03.early_stop_iff`): the firings are those
+    -- of the c - 1 passes before it, each of which walks the sorted vector once
+    if c < maxc && runCount (positions vec names) + 1 > c then .error "early_stop_after_firing_pass"
     o := addTag o single "single_pass_checked"
     o := addTag o (c < maxc) "early_stop"
     o := addTag o (c == maxc && maxc > 0) "at_bound"
@@ -139,7 +152,8 @@ def checkExec (maxc t : Nat) (o : OSt) (ob : OpObs) : Except String OSt := do
     o := addTag o (c ≥ 10) "cycles_ge_10"
     o := addTag o (maxc == 0) "max_cycles_0"
     o := addTag o (f == 0) "exec_silent"
-  | .err => o := addTag o true "err"
+    o := { o with prevExec := if c < maxc then 1 else 2 }
+  | .err => o := { addTag o true "err" with prevExec := 3 }
   | .other s => .error s!"bad_result:{s}"
   o := addTag o (!fired.isEmpty) "fired"
   o := addTag o (fired.any (·.noLoop)) "noloop_fire"
@@ -149,7 +163,7 @@ def checkExec (maxc t : Nat) (o : OSt) (ob : OpObs) : Except String OSt := do
   o := addTag o (fired.any (fun r => r.agenda.isSome && r.group != 0)) "grouped_fire"
   o := addTag o (ob.events.any (fun e => match e with | .act _ => true | _ => false)) "activate_action"
   o := addTag o (o.rules.any (fun r => !C03.refGate R' ob.active t r && r.cond.holds ob.facts)) "gate_blocks_true_rule"
-  pure { o with R := R', active := ob.active, pending := none, facts := ob.facts }
+  pure { o with R := R', active := ob.active, pending := none, facts := ob.facts, kbEdited := false }
 
 def expectRes (ob : OpObs) (s : List String) : Except String Unit :=
   match ob.res with
@@ -177,7 +191,7 @@ def checkOp (maxc : Nat) (o : OSt) (op : Op) (ob : OpObs) : Except String OSt :=
         -- the knowledge-base semantics itself is C15's; here the reference KB follows the calls
         let s := step maxc { init with rules := o.rules } op
         expectRes ob [showRes s.2]
-        pure { o with rules := s.1.rules }
+        pure { o with rules := s.1.rules, kbEdited := o.kbEdited || s.1.rules != o.rules }
       | _ => pure o
     pure (addTag { o1 with active := ob.active, facts := ob.facts } true "api_op")
 
